@@ -105,3 +105,72 @@ theorem import_clientOf_member : ∀ (ms cs : List (String × DType F)) (k : Str
 end
 
 end Frappy.Lemmas.C02
+
+namespace Frappy.Lemmas.C02
+open FloatOps DType Frappy.Datatypes
+
+variable {F : Type} [FloatOps F]
+
+mutual
+theorem export_clientOf : ∀ (dt c : DType F) (v : PVal F), clientOf dt = some c → exportValue c v = exportValue dt v
+  | .double .., c, v, h => by simp only [clientOf] at h; cases h; rfl
+  | .int .., c, v, h => by simp only [clientOf] at h; cases h; rfl
+  | .bool, c, v, h => by simp only [clientOf] at h; cases h; rfl
+  | .enum _, c, v, h => by simp only [clientOf] at h; cases h; rfl
+  | .string .., c, v, h => by simp only [clientOf] at h; cases h; rfl
+  | .blob .., c, v, h => by simp only [clientOf] at h; cases h; rfl
+  | .scaled scale min max ar rr, c, v, h => by
+    simp only [clientOf] at h
+    obtain ⟨a, b, rfl⟩ := clientScaled_shape h
+    simp [exportValue]
+  | .array elem lo hi, c, v, h => by
+    simp only [clientOf] at h
+    split at h
+    · rename_i e he
+      cases h
+      have : exportValue e = exportValue elem := funext (fun x => export_clientOf elem e x he)
+      simp only [exportValue, this]
+    · cases h
+  | .tuple elems, c, v, h => by
+    simp only [clientOf] at h
+    split at h
+    · rename_i es hes
+      cases h
+      have hl : es.length = elems.length := clientOfList_length elems es hes
+      have : exportTuple es = exportTuple elems := funext (fun x => export_clientOf_list elems es x hes)
+      simp only [exportValue, hl, this]
+    · cases h
+  | .struct ms opt cl, c, v, h => by
+    simp only [clientOf] at h
+    split at h
+    · rename_i cs hcs
+      cases h
+      have hk := clientOfFields_keys ms cs hcs
+      have : exportMember cs = exportMember ms := funext (fun k => funext (fun x => export_clientOf_member ms cs k x hcs))
+      simp only [exportValue, hk, this]
+    · cases h
+theorem export_clientOf_list : ∀ (ts cs : List (DType F)) (vs : List (PVal F)), clientOfList ts = some cs →
+    exportTuple cs vs = exportTuple ts vs
+  | [], cs, vs, h => by simp only [clientOfList] at h; cases h; rfl
+  | t :: ts, cs, vs, h => by
+    simp only [clientOfList] at h
+    split at h
+    · rename_i c cs' hc hcs
+      cases h
+      cases vs with
+      | nil => simp [exportTuple]
+      | cons v vs => simp only [exportTuple, export_clientOf t c v hc, export_clientOf_list ts cs' vs hcs]
+    · cases h
+theorem export_clientOf_member : ∀ (ms cs : List (String × DType F)) (k : String) (v : PVal F), clientOfFields ms = some cs →
+    exportMember cs k v = exportMember ms k v
+  | [], cs, k, v, h => by simp only [clientOfFields] at h; cases h; rfl
+  | (k', t) :: ms, cs, k, v, h => by
+    simp only [clientOfFields] at h
+    split at h
+    · rename_i c cs' hc hcs
+      cases h
+      simp only [exportMember, export_clientOf t c v hc, export_clientOf_member ms cs' k v hcs]
+    · cases h
+end
+
+end Frappy.Lemmas.C02
